@@ -3,7 +3,7 @@
 P=$1; D=$2
 cd /repo || exit 9
 git diff --quiet || { echo "/repo is dirty"; exit 9; }
-git apply "$D/patch.diff" || { echo "patch does not apply"; exit 9; }
+P2="$D/patch.diff"; [ -f "$D/patch_ported.diff" ] && P2="$D/patch_ported.diff"; git apply "$P2" || { echo "patch does not apply"; exit 9; }
 cd /verif
 ./run_check.py $P > /tmp/seed_eval_$P.log 2>&1; rc=$?
 grep -E "^(VIOLATION|UNDECIDED|OK|KNOWN)" /tmp/seed_eval_$P.log | cut -c1-260
